@@ -162,6 +162,13 @@ func (h *recHost) CreateConnection(ctx context.Context) types.CreateConnectionDa
 	d := h.Host.CreateConnection(ctx)
 	h.w.mu.Lock()
 	h.w.created = append(h.w.created, d.Connection)
+	if h.w.concurrent {
+		// concurrent phase: the listener list of a connection must not be appended to while its read loop may be
+		// delivering an event, so the harness listener goes in first, before the pool sees the connection
+		m := &mconn{conn: d.Connection}
+		d.Connection.AddConnectionEventListener(m)
+		h.w.pre = append(h.w.pre, m)
+	}
 	h.w.mu.Unlock()
 	return d
 }
@@ -233,6 +240,8 @@ type world struct {
 	ext            int
 	timeouts       int
 	proto          api.XProtocol
+	concurrent     bool
+	pre            []*mconn // concurrent phase: records made at creation (same order as created)
 }
 
 var clusterSeq int64
@@ -303,16 +312,29 @@ func (w *world) registerNew() {
 	for len(w.conns) < len(created) {
 		c := created[len(w.conns)].(types.ClientConnection)
 		m := &mconn{conn: c}
+		if w.concurrent {
+			w.mu.Lock()
+			m = w.pre[len(w.conns)]
+			w.mu.Unlock()
+		}
+		if w.concurrent {
+			// another worker may still be inside Connect(): wait until the dial has finished
+			waitFor(settleTimeout, func() bool { return c.State() != api.ConnInit })
+		}
 		if c.State() != api.ConnInit || c.LocalAddr() != nil {
-			la := ""
-			if c.LocalAddr() != nil {
-				la = c.LocalAddr().String()
-			}
-			if !waitFor(settleTimeout, func() bool { m.up = w.up.find(la); return m.up != nil }) {
+			// (the connection reports "connected" a moment before its local address is filled in)
+			if !waitFor(settleTimeout, func() bool {
+				if a := c.LocalAddr(); a != nil {
+					m.up = w.up.find(a.String())
+				}
+				return m.up != nil
+			}) {
 				w.timeouts++
 			}
 		}
-		c.AddConnectionEventListener(m)
+		if !w.concurrent {
+			c.AddConnectionEventListener(m)
+		}
 		w.conns = append(w.conns, m)
 	}
 }
@@ -366,7 +388,11 @@ func (w *world) reqResource() types.Resource {
 }
 
 // newStream: pool.NewStream, and on success the request is sent at once (as the proxy does).
-func (w *world) newStream(connectFails bool) string {
+func (w *world) newStream(connectFails bool) string { return w.newStreamOpt(connectFails, true) }
+
+// newStreamOpt: with waitSent=false the harness does not wait until the upstream has received the request (the
+// connection's own goroutines may not even have been scheduled yet when the next operation hits).
+func (w *world) newStreamOpt(connectFails bool, waitSent bool) string {
 	w.failNext = connectFails
 	ctx := newCtx()
 	rec := &streamRec{conn: -1}
@@ -401,12 +427,11 @@ func (w *world) newStream(connectFails bool) string {
 	}
 	switch w.kind {
 	case "h1":
-		h := mosnhttp.RequestHeader{RequestHeader: &fasthttp.RequestHeader{}}
-		sender.AppendHeaders(ctx, h, true)
+		sender.AppendHeaders(ctx, h1Request(), true)
 	case "pp":
-		sender.AppendHeaders(ctx, bolt.NewRpcRequest(0, nil, nil), true)
+		sender.AppendHeaders(ctx, ppRequest(), true)
 	}
-	if m.up != nil {
+	if m.up != nil && waitSent {
 		if !waitFor(settleTimeout, func() bool {
 			_, _, d := rec.get()
 			return atomic.LoadInt64(&m.up.got) > before || d > 0
@@ -416,6 +441,9 @@ func (w *world) newStream(connectFails bool) string {
 	}
 	return fmt.Sprintf("ok%d", rec.conn)
 }
+
+func h1Request() api.HeaderMap { return mosnhttp.RequestHeader{RequestHeader: &fasthttp.RequestHeader{}} }
+func ppRequest() api.HeaderMap { return bolt.NewRpcRequest(0, nil, nil) }
 
 func (w *world) writeUp(ci int, b []byte) {
 	m := w.conns[ci]
@@ -481,7 +509,7 @@ func (w *world) goAway(ci int) {
 	w.writeUp(ci, w.ppGoAway())
 	// observable only for idle clients (hook flag); a leased client shows it at its next destroy, which is
 	// ordered after this frame on the same read loop.
-	waitFor(300*time.Millisecond, func() bool {
+	waitFor(settleTimeout, func() bool {
 		idle, _ := w.books()
 		for _, b := range idle {
 			if b.idx == ci {
@@ -532,12 +560,15 @@ func (w *world) books() (idle []clientBooks, total uint64) {
 	}
 }
 
+// reasons are reported by class: L local reset, R remote reset (unreadable response), K connection lost. Which of
+// ConnectionTermination / ConnectionFailed / UpstreamReset a stream sees when its connection goes away depends on
+// whether MOSN notices the loss by a read (RemoteClose) or by a failed asynchronous write — timing, not pool logic.
 var reasonShort = map[string]string{
 	string(types.StreamLocalReset):            "L",
 	string(types.StreamRemoteReset):           "R",
-	string(types.StreamConnectionTermination): "T",
-	string(types.StreamConnectionFailed):      "F",
-	string(types.UpstreamReset):               "U",
+	string(types.StreamConnectionTermination): "K",
+	string(types.StreamConnectionFailed):      "K",
+	string(types.UpstreamReset):               "K",
 	string(types.StreamOverflow):              "O",
 }
 
